@@ -23,6 +23,7 @@ import (
 	"time"
 
 	bconfig "go.minekube.com/gate/pkg/edition/bedrock/config"
+	liteconfig "go.minekube.com/gate/pkg/edition/java/lite/config"
 	"go.minekube.com/gate/pkg/gate"
 	"go.minekube.com/gate/pkg/gate/config"
 	"go.minekube.com/gate/pkg/util/configutil"
@@ -380,6 +381,94 @@ func effCase(class string, cur *config.Config, patchText string) {
 	run.Case(class, "eff "+doc(e)+" "+doc(p)+" "+rd, out)
 }
 
+// ---------- sequences of merge patches on ONE config handler ----------
+//
+// Every request must be answered as if it were the only one: the patch is applied to the configuration in
+// effect at that moment, whatever earlier patches were merged and then refused.  The expectation is computed
+// with the stateless functions (canonicalConfigJSON, mergeConfigPatch, Validate) on the current snapshot.
+//
+//	seq <exp> <E> <P> <X> <R>\t<code>    E effective config before, P patch, X expected effective config after,
+//	                                      R effective config after (all canonicalConfigJSON documents)
+
+func canonDoc(c *config.Config) string {
+	b, err := gate.C36CanonicalConfigJSON(c)
+	if err != nil {
+		panic(err)
+	}
+	v, _ := decode(string(b))
+	return doc(v)
+}
+
+var seqPatches = []string{
+	`{}`,
+	`{"config":{"lite":{"routes":[{"host":"a.example.test","backend":"a-backend.example.test:25565"}]}}}`,
+	`{"config":{"lite":{"routes":[{"host":"b.example.test","backend":"b-backend.example.test:25565"},{"host":"*.c.example.test","backend":"c:25565"}]}}}`,
+	`{"config":{"lite":{"routes":[{"host":"play.example.test","backend":"backend.example.test:25565"}]}}}`,
+	`{"config":{"bind":"127.0.0.1:25599"}}`,      // restart-required change: refused
+	`{"config":{"status":{"showMaxPlayers":7}}}`, // ditto
+	`{"config":{"unknownOption":true}}`,          // strict decoding refuses
+	`{"unknownTop":{"x":1}}`,                     // ditto
+	`{"config":{"lite":{"routes":[]}}}`,          // validation refuses
+	`{"config":{"bind":""}}`,                     // validation refuses
+	`{"config":{"lite":{"routes":[{"host":"a.example.test","backend":"a-backend.example.test:25565"}]},"bind":"127.0.0.1:25599"}}`,
+	`{"config":{"quota":{"logins":{"burst":null}}}}`, // removes a member: refused by validation (burst 0)
+	`{"healthService":null}`,
+}
+
+func seqSession(r *hx.Rng, steps int) {
+	base := config.DefaultConfig
+	base.Config.Bind = "127.0.0.1:25565"
+	base.Config.Lite.Enabled = true
+	base.Config.Lite.Routes = []liteconfig.Route{{Host: []string{"play.example.test"}, Backend: []string{"backend.example.test:25565"}}}
+	g, err := gate.New(gate.Options{Config: &base})
+	if err != nil {
+		panic(err)
+	}
+	h := gate.NewConfigHandler(g, "")
+	for i := 0; i < steps; i++ {
+		snap, cur, err := g.ConfigSnapshot()
+		if err != nil {
+			panic(err)
+		}
+		patch := hx.Pick(r, seqPatches)
+		ifMatch := cur
+		if r.Chance(1, 4) {
+			ifMatch = "stale-" + cur[:8]
+		}
+		e := canonDoc(snap)
+		exp, x := "invalid_argument", e
+		if cand, err := gate.C36MergeConfigPatch(snap, patch); err == nil {
+			if _, errs := cand.Validate(); len(errs) == 0 {
+				// content equality as the Gate decides it: bytes of json.Marshal
+				withRoutes := *snap
+				withRoutes.Config.Lite.Routes = cand.Config.Lite.Routes
+				switch {
+				case ifMatch != cur:
+					exp = "failed_precondition"
+				case js(cand) == js(snap):
+					exp = "ok"
+				case js(&withRoutes) == js(cand) && snap.Config.Lite.Enabled: // differs in Lite routes only
+					exp, x = "ok", canonDoc(&withRoutes)
+				default:
+					exp = "failed_precondition"
+				}
+			}
+		}
+		p, _ := decode(patch)
+		rd := "-"
+		out := hx.Guard(20*time.Second, func() string {
+			_, code := gate.C35ApplyConfig(h, nil, &patch, ifMatch, false)
+			after, _, err := g.ConfigSnapshot()
+			if err != nil {
+				return "snapshot-error"
+			}
+			rd = canonDoc(after)
+			return code
+		})
+		run.Case("seq", "seq "+exp+" "+e+" "+doc(p)+" "+x+" "+rd, out)
+	}
+}
+
 func managedConfigs() []*config.Config {
 	var out []*config.Config
 	for _, m := range []bconfig.BoolOrManagedGeyser{
@@ -435,6 +524,15 @@ func main() {
 		mergeCase("fixed-deep", nest("a", d, `{"k":1,"z":2}`), nest("a", d, `{"k":null,"n":{"m":null}}`))
 		mergeCase("fixed-deep", `{"q":1}`, nest("a", d, `null`))
 		mergeCase("fixed-deep", nest("a", d, `1`), nest("a", d+1, `null`))
+	}
+
+	// --- histories: several merge patches on one handler, refused ones must leave no trace ---
+	{
+		fixed := hx.NewRng(7)
+		seqSession(fixed, 30)
+	}
+	for i := run.Scale(12, 150); i > 0; i-- {
+		seqSession(r, run.Scale(25, 40))
 	}
 
 	// --- structured: patch derived from the target ---
